@@ -333,7 +333,7 @@ func (c *caseCtx) checkOneFilter(f sqlgen.Filter, rows []reflect.Value, fg *filt
 		if got.String() != want.String() {
 			w := fw(map[string]interface{}{"what": "the filter matches different rows after FilterToProto/FilterFromProto", "stage": stage,
 				"decoded_filter": showFilter(g), "test_f": want.String(), "test_g": got.String()})
-			classes := c.classifyFilterMismatch(f, rows, got)
+			classes := c.classifyFilterMismatch(f, g, rows, want, got)
 			if fg.illTyped || len(classes) == 0 {
 				report("", w)
 				return
@@ -388,7 +388,7 @@ func (c *caseCtx) classifyFilterPanic(f sqlgen.Filter) string {
 // time.Time with ==, so equal instants in different locations differ;
 // (b) pointers to zero values on implicitnull columns dereferenced - the
 // Valuer applies implicitnull to the pointer, not to the value it points to.
-func (c *caseCtx) classifyFilterMismatch(f sqlgen.Filter, rows []reflect.Value, got testOutcome) []string {
+func (c *caseCtx) classifyFilterMismatch(f, g sqlgen.Filter, rows []reflect.Value, want, got testOutcome) []string {
 	norm := func(utc, deref bool) (sqlgen.Filter, bool, bool) {
 		n := sqlgen.Filter{}
 		didUTC, didDeref := false, false
@@ -411,6 +411,33 @@ func (c *caseCtx) classifyFilterMismatch(f sqlgen.Filter, rows []reflect.Value, 
 		return n, didUTC, didDeref
 	}
 	same := func(n sqlgen.Filter) bool { return c.testAll(n, rows).String() == got.String() }
+	// (c) []byte with the json tag: FilterFromProto's Scanner keeps the JSON text
+	// undecoded (same defect as in the row round trip). Recognised by putting
+	// f's own value back into g for exactly those columns and re-testing.
+	{
+		g2 := sqlgen.Filter{}
+		for k, v := range g {
+			g2[k] = v
+		}
+		did := false
+		for k, v := range f {
+			s := c.ti.specByName(k)
+			if s == nil || !s.jsonTag || s.base != bytesType {
+				continue
+			}
+			rv := reflect.ValueOf(v)
+			for rv.IsValid() && rv.Kind() == reflect.Ptr && !rv.IsNil() {
+				rv = rv.Elem()
+			}
+			if rv.IsValid() && rv.Kind() == reflect.Slice && !rv.IsNil() {
+				g2[k] = v
+				did = true
+			}
+		}
+		if did && c.testAll(g2, rows).String() == want.String() {
+			return []string{"bytes-json-tag-not-decoded"}
+		}
+	}
 	if n, did, _ := norm(true, false); did && same(n) {
 		return []string{"filter-time-location-equality"}
 	}
